@@ -65,6 +65,17 @@ pub fn vf_filter_map_owned<T, B, F: Fn(T) -> Option<B>>(v: Vec<T>, f: F) -> (r: 
     requires forall|i: int| 0 <= i < v@.len() ==> call_requires(f, (#[trigger] v@[i],)),
     ensures forall|j: int| 0 <= j < r@.len() ==> exists|i: int| 0 <= i < v@.len() && call_ensures(f, (v@[i],), Some(#[trigger] r@[j])),
 { unimplemented!() }
+// v.drain(..n) with the drained items dropped: removes the first n elements (panics if n > len)
+#[verifier::external_body]
+pub fn vf_drain_to<T>(v: &mut Vec<T>, n: usize)
+    requires n <= old(v)@.len()
+    ensures final(v)@ == old(v)@.subrange(n as int, old(v)@.len() as int)
+{ unimplemented!() }
+#[verifier::external_body]
+pub fn vf_drain_to_incl<T>(v: &mut Vec<T>, n: usize)
+    requires n < old(v)@.len()
+    ensures final(v)@ == old(v)@.subrange(n as int + 1, old(v)@.len() as int)
+{ unimplemented!() }
 // a.into_iter().chain(b).collect::<Vec<_>>()
 #[verifier::external_body]
 pub fn vf_concat<T>(a: Vec<T>, b: Vec<T>) -> (r: Vec<T>) ensures r@ == a@ + b@ { unimplemented!() }
